@@ -275,7 +275,7 @@ func c17Test(k c17Case) string {
 }
 
 func checkC17(c *vlib.Ctx) (string, string) {
-	ck := &Checker[c17Case]{C: c, Judge: c17Judge, Test: c17Test}
+	ck := &Checker[c17Case]{C: c, Judge: c17Judge, Test: c17Test, Watchdog: 20 * time.Second}
 	rule := "configuration strings P.Sigma^{<=n} for every list field (prefixes covering every parser state, byte classes incl. NUL/0xFF/UTF-8), pairs over a pool of edge-case patterns, extreme integers, nil/empty lists and nil config; requests: Origin / ACRM / ACRH / ACRPN values from P.Sigma^{<=n}, zero-valued and multi-valued keys, sizes up to 1 MiB and 100 000 elements or lines, under 6 configurations x debug; oracle: no panic; non-trivial = distinct request case carrying at least one Origin value (it reaches the origin parser and the tree)"
 	if ck.Replay() {
 		return levelMC, rule
